@@ -14,6 +14,12 @@ exploration, helper calls inlined, buffer lengths / indices as symbolic linear f
            (exactly the parsed message is consumed);
         e  after the request the leftover is forwarded to the child exactly once as DataReceived(client, self.buf), after
            the child's Start, and ``self.buf`` is deleted; nothing is forwarded when it is empty.
+        f  the layer only ever *waits* (a DataReceived transition ends with the layer's own handler still installed)
+           because the state function that is current at the end (``self.state``) was run on the final buffer and found it
+           too short: it was entered after the last consumption / state change and the path ends in its failed length
+           test.  Otherwise bytes that arrived in the same segment as the end of the previous message (greeting + auth +
+           request pipelined) sit unparsed until some later segment arrives - the same bytes split differently work,
+           so the outcome depends on the segmentation (and a client that waits for the reply hangs).
   R21.2 RFC 1928 / 1929 tables (cells evaluated by binding the relevant bytes):
         version byte 5 / other; method selection 05 00 (no auth) / 05 02 (proxyauth) / 05 FF.. (not offered) + next state;
         auth replies 01 00 / 01 01; request prefix 05 01 00 else reply 07; ATYP 1/3/4 message lengths 10 / 7+n / 22 else
@@ -73,7 +79,7 @@ def fmt(tr):
 
 def r21_1(ctx, trans, where):
     bad = {}
-    n_wait = n_consume = n_reads = n_left = 0
+    n_wait = n_consume = n_reads = n_left = n_quiescent = 0
     for src, kind, tr, dst, exc in trans:
         eff = [e for e in tr if e[0] != "c"]
         # a: append then dispatch
@@ -119,6 +125,19 @@ def r21_1(ctx, trans, where):
                 seg_clean = False
             elif e[0] == "buf+" and i > 3:
                 bad.setdefault("a: self.buf is appended to in the middle of a state function", tr)
+        # f: waiting is justified only by a failed length test of the state that is current at the end
+        if kind == "DataReceived" and exc is None and dst.get("self._handle_event") == OWN:
+            n_quiescent += 1
+            cur = dst["self.state"][1] if dst["self.state"][0] == "r" else str(dst["self.state"])
+            i_mod = max((i for i, e in enumerate(tr) if e[0] in ("buf:=", "buf+", "bufdel") or (e[0] == "set" and e[1] == "self.state")), default=-1)
+            i_run = max((i for i, e in enumerate(tr) if e[0] == "enter" and e[1] == cur), default=-1)
+            last = tr[-1] if tr else None
+            if i_run < i_mod:
+                what = {"buf:=": "consuming a message", "set": "switching to " + cur.replace("self.", ""), "buf+": "appending data", "bufdel": "deleting the buffer"}[tr[i_mod][0]]
+                bad.setdefault(f"f: after {what} the layer waits for more data without running {cur.replace('self.', '')} on the bytes already buffered "
+                               "(pipelined bytes are parsed only when a later segment arrives)", tr)
+            elif not (last is not None and last[0] == "c" and last[1] == "need" and last[3]):
+                bad.setdefault(f"f: the layer waits for more data although {cur.replace('self.', '')} did not find the buffer too short", tr)
         # e: leftover
         if dst.get("self._handle_event") == CHILD and src.get("self._handle_event") == OWN:
             i_set = next(i for i, e in enumerate(tr) if e[0] == "set" and e[2] == CHILD[1])
@@ -140,13 +159,14 @@ def r21_1(ctx, trans, where):
             else:
                 bad.setdefault("e: the leftover bytes are not tested / forwarded after the request (bytes sent with the request are lost)", tr)
     if not bad:
-        ctx.require(n_wait >= 6 and n_consume >= 3 and n_reads >= 8 and n_left >= 1,
-                    f"SOCKS5 model lost its buffer operations (waits={n_wait}, consumes={n_consume}, reads={n_reads}, leftovers={n_left})")
+        ctx.require(n_wait >= 6 and n_consume >= 3 and n_reads >= 8 and n_left >= 1 and n_quiescent >= 6,
+                    f"SOCKS5 model lost its buffer operations (waits={n_wait}, consumes={n_consume}, reads={n_reads}, leftovers={n_left}, waiting transitions={n_quiescent})")
     for msg, tr in sorted(bad.items()):
         ctx.fail("R21.1", where, msg, "the outcome of the handshake depends on how the client's bytes are segmented / bytes are lost or parsed twice", trace=fmt(tr))
     if not bad:
         ctx.ok("R21.1", f"append-then-parse on all DataReceived paths; {n_wait} short-buffer returns without effect; {n_reads} reads inside tested lengths; "
-               f"{n_consume} consumptions of exactly the tested length; {n_left} leftover hand-overs")
+               f"{n_consume} consumptions of exactly the tested length; {n_left} leftover hand-overs; all {n_quiescent} waiting transitions end in a failed "
+               "length test of the current state on the final buffer")
 
 
 def project(tr, dst):
@@ -456,6 +476,11 @@ MUTANTS = [
     Mutant("auth-reply-before-length-test", M, "        pass_len = self.buf[2 + user_len]\n        if len(self.buf) < 3 + user_len + pass_len:\n            return\n",
            "        pass_len = self.buf[2 + user_len]\n        yield commands.SendData(self.context.client, b\"\\x01\\x00\")\n        if len(self.buf) < 3 + user_len + pass_len:\n            return\n", "R21.1"),
     Mutant("domain-length-byte-unchecked", M, "        if len(self.buf) < 5:\n            return\n\n        if self.buf[:3]", "        if len(self.buf) < 4:\n            return\n\n        if self.buf[:3]", "R21.1"),
+    # R21.1f: the next state must be run on what is already buffered (seed C21b = the first one)
+    Mutant("auth-does-not-redispatch", M, "        self.state = self.state_connect\n        yield from self.state()\n", "        self.state = self.state_connect\n", "R21.1"),
+    Mutant("greeting-does-not-redispatch", M, "        self.buf = self.buf[2 + n_methods :]\n        yield from self.state()\n", "        self.buf = self.buf[2 + n_methods :]\n", "R21.1"),
+    Mutant("auth-redispatches-before-consuming", M, "        self.buf = self.buf[3 + user_len + pass_len :]\n        self.state = self.state_connect\n        yield from self.state()\n",
+           "        self.state = self.state_connect\n        yield from self.state()\n        self.buf = self.buf[3 + user_len + pass_len :]\n", "R21.1"),
     Mutant("ipv6-length-as-ipv4", M, "            message_len = 4 + 16 + 2\n", "            message_len = 4 + 4 + 2\n", "R21.2"),
     Mutant("domain-includes-length-byte", M, "            host_bytes = msg[5:-2]\n", "            host_bytes = msg[4:-2]\n", "R21.2"),
     Mutant("port-little-endian", M, "struct.unpack(\"!H\", msg[-2:])", "struct.unpack(\"<H\", msg[-2:])", "R21.2"),
